@@ -62,6 +62,9 @@ theorem sC_reach_nf : Reach noForeign job sC := reach_run sB_reach_nf runC (by d
 theorem sA_reach_st : Reach stabChecked job sA := reach_run (s0_reach _) runA (by decide +kernel)
 theorem sB_reach_st : Reach stabChecked job sB := reach_run sA_reach_st runB (by decide +kernel)
 theorem sB_sC_st : Steps stabChecked job sB sC := steps_run sB runC (by decide +kernel)
+theorem sA_reach_stF : Reach stabCheckedF job sA := reach_run (s0_reach _) runA (by decide +kernel)
+theorem sB_reach_stF : Reach stabCheckedF job sB := reach_run sA_reach_stF runB (by decide +kernel)
+theorem sB_sC_stF : Steps stabCheckedF job sB sC := steps_run sB runC (by decide +kernel)
 theorem wf3_job : WF3 job := ⟨by decide, by decide, by decide, by decide⟩
 theorem sB_sC_lag : Steps lagOnly job sB sC := steps_run sB runC (by decide +kernel)
 
